@@ -142,4 +142,44 @@ theorem p2sEllMinor_eq (ra dec ra2 dec2 ra3 dec3 : ℝ) :
     R.real_radians, R.real_ofNat, Nat.cast_ofNat]
   try ring_nf
 
+/-! ### the plumbing around the WCS calls (deepening round) -/
+
+/-- FITS axis 1 gets the caller's second coordinate `y`, axis 2 the first `x`; origin 1 -/
+theorem pix2skyP1_eq (x y : ℝ) : Gen.C16.pix2skyP1 x y = y := by
+  try simp only [Gen.C16.pix2skyP1, C16Hand.pix2skyP1]
+theorem pix2skyP2_eq (x y : ℝ) : Gen.C16.pix2skyP2 x y = x := by
+  try simp only [Gen.C16.pix2skyP2, C16Hand.pix2skyP2]
+theorem pix2skyOrigin_eq : (Gen.C16.pix2skyOrigin : ℝ) = 1 := by
+  try simp only [Gen.C16.pix2skyOrigin, C16Hand.pix2skyOrigin, R.real_ofNat, Nat.cast_one]
+theorem sky2pixX_eq (w0 w1 : ℝ) : Gen.C16.sky2pixX w0 w1 = w1 := by
+  try simp only [Gen.C16.sky2pixX, C16Hand.sky2pixX]
+theorem sky2pixY_eq (w0 w1 : ℝ) : Gen.C16.sky2pixY w0 w1 = w0 := by
+  try simp only [Gen.C16.sky2pixY, C16Hand.sky2pixY]
+theorem sky2pixOrigin_eq : (Gen.C16.sky2pixOrigin : ℝ) = 1 := by
+  try simp only [Gen.C16.sky2pixOrigin, C16Hand.sky2pixOrigin, R.real_ofNat, Nat.cast_one]
+
+/-- the offset points are `(x + r cos θ°, y + r sin θ°)`, and for the minor axis the same at `θ − 90°` with `sy` -/
+theorem p2sVecOffX_eq (x y r theta : ℝ) : Gen.C16.p2sVecOffX x y r theta = C16Hand.offX x r theta := by
+  try simp only [Gen.C16.p2sVecOffX, C16Hand.p2sVecOffX, C16Hand.offX, R.real_cos, R.real_radians]
+  try ring_nf
+theorem p2sVecOffY_eq (x y r theta : ℝ) : Gen.C16.p2sVecOffY x y r theta = C16Hand.offY y r theta := by
+  try simp only [Gen.C16.p2sVecOffY, C16Hand.p2sVecOffY, C16Hand.offY, R.real_sin, R.real_radians]
+  try ring_nf
+theorem p2sEllOff1X_eq (x y sx sy theta : ℝ) : Gen.C16.p2sEllOff1X x y sx sy theta = C16Hand.offX x sx theta := by
+  try simp only [Gen.C16.p2sEllOff1X, C16Hand.p2sEllOff1X, C16Hand.offX, R.real_cos, R.real_radians]
+  try ring_nf
+theorem p2sEllOff1Y_eq (x y sx sy theta : ℝ) : Gen.C16.p2sEllOff1Y x y sx sy theta = C16Hand.offY y sx theta := by
+  try simp only [Gen.C16.p2sEllOff1Y, C16Hand.p2sEllOff1Y, C16Hand.offY, R.real_sin, R.real_radians]
+  try ring_nf
+theorem p2sEllOff2X_eq (x y sx sy theta : ℝ) :
+    Gen.C16.p2sEllOff2X x y sx sy theta = C16Hand.offX x sy (theta - R.ofNat 90) := by
+  try simp only [Gen.C16.p2sEllOff2X, C16Hand.p2sEllOff2X, C16Hand.offX, R.real_cos, R.real_radians, R.real_ofNat,
+    Nat.cast_ofNat]
+  try ring_nf
+theorem p2sEllOff2Y_eq (x y sx sy theta : ℝ) :
+    Gen.C16.p2sEllOff2Y x y sx sy theta = C16Hand.offY y sy (theta - R.ofNat 90) := by
+  try simp only [Gen.C16.p2sEllOff2Y, C16Hand.p2sEllOff2Y, C16Hand.offY, R.real_sin, R.real_radians, R.real_ofNat,
+    Nat.cast_ofNat]
+  try ring_nf
+
 end Aegean.C16
